@@ -1,4 +1,4 @@
-CONSTANTS Lvl <- DefaultLvl MaxOps = 5 MaxDepth = 1 MaxTotal = 5
+CONSTANTS Lvl <- DefaultLvl MaxOps = 5 MaxDepth = 1 Reps <- AllOps MaxTotal = 5
 INIT Init
 NEXT Next
 CHECK_DEADLOCK FALSE
